@@ -62,6 +62,7 @@ type simAdapter struct {
 	inc     int
 	// counters
 	FiredEnq, FiredDeq, FiredAck, FiredStall, Dups, Delays int
+	injected int // undecodable entries put into the backend by opInject
 	lens     []lenObs
 	enqIDs   []string // job ids in the order the adapter stored them (parsed from the bytes)
 	deliveredBad []bool // per delivered corrupted entry: might it still decode?
